@@ -68,6 +68,9 @@ class FakeTmp(object):
         self.closed = False
 
     def last_update(self):
+        if self.closed:
+            # like the real WorkerTmp: os.fstat(closed_file.fileno())
+            raise ValueError("I/O operation on closed file")
         return self.kernel.heartbeat_of(self.worker)
 
     def notify(self):
